@@ -8,5 +8,6 @@ Extraction "model.ml" C17_Model.convert C17_Model.convertHex C17_Model.empty C17
   C17_Model.avail C17_Model.put C17_Model.run C17_Model.debugString C17_Model.kSmallBuffer
   C17_Model.kMaxNumericSize C17_Model.item_text C17_Model.log_line C17_Model.tls0
   C17_Model.macro_emits C17_Model.macro_level C17_Model.macro_has_func C17_Model.basename
-  C17_Model.formatSI C17_Model.formatIEC BinInt.Z.add BinInt.Z.leb BinInt.Z.ltb
+  C17_Model.formatSI C17_Model.formatIEC C17_Model.fmt_g12 C17_Model.lineage C17_Model.tidc0 C17_Model.tid_text
+  BinInt.Z.add BinInt.Z.leb BinInt.Z.ltb
   Base_Bytes.xbyte_of_N Base_Bytes.xN_of_byte.
